@@ -7,21 +7,21 @@ L1 = ("TLC-generated grammars and inputs are run through the real peg and the pa
       "observations and accepts a record only if it equals what the TLA+ requirement (PegSem/TokenConsumers) derives. ")
 
 CLAIMED = {
-    "C01": dict(text=L1 + "Decides verdict and consumed prefix for default options, every reachable rule as entry.",
+    "C01": dict(text=L1 + "Decides verdict and consumed prefix for default options, every reachable rule as entry. Also: literals and classes spelled with every escape style (family lex), ranges written the wrong way round, and Parse called twice on one instance without Reset (a failed parse leaves nothing behind, a successful one is continued), judged against PegSem.",
                 tech="TLA+ denotational PEG semantics (PegSem!Eval) as oracle; TLC-enumerated grammars x inputs; conformance of recorded API observations judged by TLC", ref="5 C01"),
     "C03": dict(text=L1 + "Decides the exact token sequence (rule, begin, end in runes) of every accepted input, incl. multi-byte and multi-line inputs.",
                 tech="TLA+ PegSem!Eval token semantics as oracle; recorded Tokens() judged by TLC", ref="5 C03"),
-    "C04": dict(text=L1 + "Decides the Execute() action trace (which actions, order, text/begin/end of the last completed capture).",
+    "C04": dict(text=L1 + "Decides the Execute() action trace (which actions, order, text/begin/end of the last completed capture). Also after a second Parse without Reset: Execute runs the actions of the derivation that succeeded, and only those.",
                 tech="TLA+ TokenConsumers!ExecWithText over PegSem!Eval; recorded probe log judged by TLC", ref="5 C04"),
     "C05": dict(text=L1 + "Decides the AST() shape (pre-order depth/rule/span) and the printed syntax tree against the declarative derivation tree.",
                 tech="TLA+ TokenConsumers!DerivTree/PrintLines; recorded AST walk and printer output judged by TLC", ref="5 C05"),
     "C02": dict(text="L0: Optimizer.tla transcribes the -switch rewrite (first sets, consumes, intersection threshold, ordered/unordered split, default case) and the emitted dispatch semantics (one case, no fall-through, skipped first test); TLC checks on the switch family that the rewritten grammar gives PegSem!Eval's verdict, end and tokens, and refutes the variants with the pinned tree's rules (nullable alternatives, skip propagation, single analysing pass over the rule cache); the cache passes are transcribed as the code runs them and shown to compute the idealised rewrite. PegVM with dispatch nodes is model-checked on the rewritten bodies against Eval of the original ones, and the hook events of -switch and -inline -switch parsers are validated against it (L2). " + L1 + "Decides that the parsers generated with -inline, -switch and both give the same verdict, consumed prefix and token sequence as the default parser, on a family built around choices of >= 3 consuming alternatives (the shape -switch rewrites) and on the general family.",
                 tech="TLA+ Optimizer model checked against PegSem!Eval; TLC-judged equality of observations across the four option sets over TLC-generated grammars (switch-shaped and random families)", ref="5 C02"),
-    "C07": dict(text=L1 + "Decides that -noast parsers (x -inline/-switch) give the default parser's verdict and that the inline action log equals PegSem!NoAstLog (actions when reached, text = last completed capture in execution order).",
+    "C07": dict(text=L1 + "Decides that -noast parsers (x -inline/-switch) give the default parser's verdict and that the inline action log equals PegSem!NoAstLog (actions when reached, text = last completed capture in execution order). Also with non-ASCII input and for Parse called twice without Reset (verdicts compared with the default parser's for the same call sequence).",
                 tech="TLA+ PegSem!NoAstLog as oracle for the recorded inline action log; TLC-judged verdict equality across the eight option sets", ref="5 C07"),
     "C11": dict(text=L1 + "Decides verdict, the furthest-token rule (first non-empty token reaching the furthest offset) and the message fields (rule, 1-based line/column of begin and end, quoted text), incl. multi-line and multi-byte inputs.",
                 tech="TLA+ PegSem!ErrTok and TokenConsumers!ErrorFields as oracle; recorded parse error judged by TLC", ref="5 C11"),
-    "C12": dict(text=L1 + "Decides that every step of TLC-generated histories on one long-lived instance (Buffer; Reset; Parse; Execute; AST) equals the fresh-instance observation of that input, across Size {unset,1,4096}, U {uint16,uint32,uint64,uint}, and for default, -inline -switch and -noast parsers.",
+    "C12": dict(text=L1 + "Decides that every step of TLC-generated histories on one long-lived instance (Buffer; Reset; Parse; Execute; AST) equals the fresh-instance observation of that input, across Size {unset,1,4096}, U {uint16,uint32,uint64,uint}, and for default, -inline -switch and -noast parsers. Includes a pinned line-oriented grammar whose inputs fail on later lines (line/column positions of one input after another on the same instance).",
                 tech="TLC-generated reuse histories replayed on the real parsers; TLC-judged equality with fresh-instance observations", ref="5 C12"),
     "C13": dict(text=L1 + "Decides no panic / verdict in {nil, parse error} / token offsets index []rune(Buffer) for byte-level inputs (NUL, invalid UTF-8, surrogates, non-BMP, U+10FFFF) with full PegSem!Eval equality on the rune sequence Go derives.",
                 tech="TLA+ PegSem!Eval over the rune view of TLC-generated byte strings; recorded panics/tokens judged by TLC", ref="5 C13"),
@@ -34,19 +34,19 @@ CLAIMED = {
     "C10": dict(text="Round trip through the specification's own printer: TLC renders TLC-generated abstract grammars (every construct, alphabet with quotes, brackets, dash, caret, backslash, control characters, Latin-1, BMP, non-BMP, U+10FFFF) under 13 documented spellings; the real front end parses each text and TLC accepts the dumped rule tree only if it is PegSyntax!Desugar of the abstract grammar (the documented meaning of each construct) and imports keep path and alias; the builder calls the real actions make are recorded and must be a behaviour of TreeBuilder.tla (one action per Add* method) that keeps the stack discipline and builds that tree. Seeded mutants of every text must be rejected or give rules, never crash.",
                 tech="TLA+ PegSyntax!Render / Desugar as executable concrete-syntax specification; dumped front-end trees and recorded builder-call traces (TreeBuilder.tla) judged by TLC; driver-side seeded mutation for malformed text", ref="5 C10 and 6",
                 note="The space of non-grammars is not enumerable from a specification of grammars: mutants are judged for crash-freedom and non-emptiness only. TLC and the front-end harness are trusted."),
-    "C14": dict(text="L0: TLC checks PegRuntime (N instances, the documented call sequence per instance) for Confinement and FreshEquivalence. Conformance: interleavings of two instances' call sequences that are behaviours of PegRuntime (all C(10,5) merges, sampled, plus the lock-step ones), with one shared Size option value, are replayed on the real parsers in one goroutine, and 4 goroutines x instances run concurrently in a batch binary built with the race detector; TLC accepts an instance's observation only if it equals its solo observation, and a race report is a rejection.",
+    "C14": dict(text="L0: TLC checks PegRuntime (N instances, the documented call sequence per instance) for Confinement and FreshEquivalence. Conformance: interleavings of two instances' call sequences that are behaviours of PegRuntime (all C(10,5) merges, sampled, plus the lock-step ones), with one shared Size option value, are replayed on the real parsers in one goroutine, and 4 goroutines x instances run concurrently in a batch binary built with the race detector; TLC accepts an instance's observation only if it equals its solo observation, and a race report is a rejection. Four of the twelve interleavings of every scenario contain a second Parse without Reset and are compared with the same call sequence run alone; PegRuntime's invariants are also discharged as an inductive invariant by Apalache.",
                 tech="TLA+ PegRuntime interleavings replayed on the real parsers, TLC-judged equality with solo observations; Go race detector as external monitor", ref="5 C14",
                 note="Interleavings are enumerated at the granularity of API calls; finer interleavings inside a call are only reached by the concurrent runs, whose schedules are whatever occurs (race detector)."),
-    "C15": dict(text="TLC generates grammars that need not be well formed (undefined names, unreachable rules, left recursion under every operator, duplicate definitions), renders them, the real peg is run with and without -strict, and TLC accepts the recorded diagnostics and exit status only if they are what Analysis.tla derives (Undefined, Unused, LeftRec via PegSem!LeftRecursive, Duplicates; -strict exit iff any; silence iff none).",
+    "C15": dict(text="TLC generates grammars that need not be well formed (undefined names, unreachable rules, left recursion under every operator, duplicate definitions), renders them, the real peg is run with and without -strict, and TLC accepts the recorded diagnostics and exit status only if they are what Analysis.tla derives (Undefined, Unused, LeftRec via PegSem!LeftRecursive, Duplicates; -strict exit iff any; silence iff none). Rule names include ones that look like the generator's own (Action, ActionList, ...).",
                 tech="TLA+ Analysis/PegSem definitions of the diagnostic sets as oracle; recorded stderr diagnostics and exit status judged by TLC", ref="5 C15",
                 note="Left-recursion verdicts are judged only for grammars without undefined names and duplicates (otherwise 'can re-enter without consuming' is not well defined); actions are not generated in this family (an action inside an unreachable rule is reported as an unused pseudo-rule); TLC and the driver are trusted."),
-    "C16": dict(text="L0: TLC exhaustively checks IntervalSet (interval list with the seven-case insertion, sentinels and observers transcribed from set/set.go) against the abstract set layer for universe 0..5 and <= 3 operations. Conformance: TLC-generated histories (all sequences of <= 3 AddRange over 0..5, pairs of sets with Union, seeded long histories with Copy/Union/Complement over 0..40) are replayed on the real package, every observer recorded after every step, and TLC accepts a history only if each observation is what the abstract sets give; panics and hangs are observations.",
+    "C16": dict(text="L0: TLC exhaustively checks IntervalSet (interval list with the seven-case insertion, sentinels and observers transcribed from set/set.go) against the abstract set layer for universe 0..5 and <= 3 operations. Conformance: TLC-generated histories (all sequences of <= 3 AddRange over 0..5, pairs of sets with Union, seeded long histories with Copy/Union/Complement over 0..40) are replayed on the real package, every observer recorded after every step, and TLC accepts a history only if each observation is what the abstract sets give; panics and hangs are observations. Family wide replays the same histories over six blocks covering the whole range of a rune, 0..2^31-1 (Len weighed by block size in two-limb arithmetic, Has at both ends of each block).",
                 tech="TLA+ IntervalSet (abstract sets + transcribed interval list, TLC refinement check) and trace validation of replayed TLC histories against the abstract layer", ref="5 C16",
                 note="Assumes elements within 0..U and begin <= end; Complement(limit) on sets within 0..limit; TLC and the replay tool (no oracle inside) are trusted."),
     "C17": dict(text="The bootstrap chain is run in a scratch copy and must reproduce peg.peg.go byte for byte (Bootstrap.tla states the chain as a fixed point); front ends regenerated from peg.peg under the four AST option sets must build the same rule tree and emit the same code as the checked-in front end on every text of a corpus (TLC-rendered spellings, shipped and bootstrap grammars, peg.peg); shipped grammars generate silently under -strict and their parsers agree across option sets on samples, character mutants and keyword-substitution mutants. TLC judges the recorded equalities.",
                 tech="TLA+ Bootstrap fixed-point statement; regenerated front ends and shipped parsers compared on recorded behaviour, judged by TLC", ref="5 C17 and 6",
                 note="File and behaviour equality are external atomic predicates; the interesting assurance about the front end as a generated parser comes from the other checks applied to generated parsers in general."),
-    "C18": dict(text="L0: TLC checks the step machine of main.go (Cli.tla: open input, open and truncate output, read, parse, compile, report) against the requirement CliReqs!CliReq for all 2 880 scenarios. Conformance: every scenario is run on the real binary (stdin piped, /dev/full as write-fault destination, pre-existing longer destination) and TLC accepts the recorded exit status, stderr and destination state only if CliReq holds.",
+    "C18": dict(text="L0: TLC checks the step machine of main.go (Cli.tla: open input, open and truncate output, read, parse, compile, report) against the requirement CliReqs!CliReq for all 2 880 scenarios. Conformance: every scenario is run on the real binary (stdin piped, /dev/full as write-fault destination, pre-existing longer destination) and TLC accepts the recorded exit status, stderr and destination state only if CliReq holds. Scenarios include surplus arguments after the grammar file and a grammar with a 100 000-character line.",
                 tech="TLA+ Cli step machine model-checked against CliReq; exhaustive scenario replay on the real binary judged by TLC", ref="5 C18",
                 note="Completeness of the written parser is an external atomic predicate (byte equality with a reference generation below the header line, go/parser); TLC and the driver are trusted."),
     "C06": dict(text=L1 + "Decides that DisableMemoize and default parsers give identical verdict, tokens and error token on every input.",
